@@ -54,7 +54,11 @@ void h_dec(void)
     out = malloc(sizeof(*out)); __CPROVER_assume(out);
     heap = NULL;
 #endif
-    uint32_t r = cop_deserialize_value(buf, buf_size, out, heap);
+    uint32_t depth = nondet_u32();   /* nesting level of this value: arbitrary (the contract bounds it) */
+#ifdef VERIF_WITNESS
+    depth = 0;
+#endif
+    uint32_t r = deserialize_value_at(buf, buf_size, out, heap, depth);
     VERIF_COVER(r == 0);
     VERIF_COVER(r != 0);
 }
@@ -117,7 +121,11 @@ void h_sdec(void)
     buf = wb;
     out = malloc(sizeof(*out)); heap = malloc(sizeof(*heap)); __CPROVER_assume(out && heap);
 #endif
-    uint32_t r = cop_deserialize_value(buf, buf_size, out, heap);
+    uint32_t depth = nondet_u32();   /* nesting level of this value: arbitrary (the contract bounds it) */
+#ifdef VERIF_WITNESS
+    depth = 0;
+#endif
+    uint32_t r = deserialize_value_at(buf, buf_size, out, heap, depth);
     VERIF_COVER(r == 0);
     VERIF_COVER(r != 0 && __verif_cop_slen == 0);
     VERIF_COVER(r != 0 && __verif_cop_slen > 70000 && __verif_cop_k == 65536);
@@ -175,7 +183,11 @@ void h_safe(void)
     buf = wb;
     out = malloc(sizeof(*out)); heap = malloc(sizeof(*heap)); __CPROVER_assume(out && heap);
 #endif
-    uint32_t r = cop_deserialize_value(buf, buf_size, out, heap);
+    uint32_t depth = nondet_u32();   /* nesting level of this value: arbitrary (the contract bounds it) */
+#ifdef VERIF_WITNESS
+    depth = 0;
+#endif
+    uint32_t r = deserialize_value_at(buf, buf_size, out, heap, depth);
     VERIF_COVER(r == 0);
     VERIF_COVER(r != 0);
 #if COP_SAFE_CLASS == 0
@@ -184,6 +196,18 @@ void h_safe(void)
 #else
     VERIF_COVER(r > 100000);
 #endif
+}
+#endif
+
+#if defined(COP_VIEW_SAFE)
+/* C16.deser.wrapper.<class> : the public cop_deserialize_value (enforced) with the helper replaced by the contract
+ * proved above: starts the recursion at depth 0 and passes everything else through */
+void h_wrapper(void)
+{
+    const uint8_t *buf; uint32_t buf_size; NanoValue *out; VmHeap *heap;
+    uint32_t r = cop_deserialize_value(buf, buf_size, out, heap);
+    VERIF_COVER(r == 0);
+    VERIF_COVER(r != 0);
 }
 #endif
 
@@ -379,7 +403,11 @@ void h_oser(void)
 void h_odec(void)
 {
     const uint8_t *buf; uint32_t buf_size; NanoValue *out; VmHeap *heap;
-    uint32_t r = cop_deserialize_value(buf, buf_size, out, heap);
+    uint32_t depth = nondet_u32();   /* nesting level of this value: arbitrary (the contract bounds it) */
+#ifdef VERIF_WITNESS
+    depth = 0;
+#endif
+    uint32_t r = deserialize_value_at(buf, buf_size, out, heap, depth);
     VERIF_COVER(r == 0);
     VERIF_COVER(r == 1);
 }
